@@ -152,7 +152,8 @@ def jsfree_cases(start, tier, seed):
 
 def gen_c09(seed, tier, start):
     cs = jsfree_cases(start, tier, seed)
-    return cs + gen_modules(seed, tier, start + len(cs), 200, 5000)
+    cs = cs + gen_modules(seed, tier, start + len(cs), 200, 5000)
+    return cs + gen_cases.gen_types_cases(seed, 120 if tier == "quick" else 3000, start + len(cs))
 
 
 def judge_c09(case, side, res):
